@@ -1,5 +1,6 @@
 import GeomV.C06.Text
 import GeomV.C06.Spec
+import GeomV.C17.Dec
 /-!
 # C06 — text certificate (the check the driver runs on every `enc` case)
 
@@ -34,5 +35,20 @@ def textCert (fin : F → Bool) (fmt : F → List Char) (pn : List Char → Opti
     (match toGeoJSON g with
      | .ok o => decide (renderGeometry fmt o = txt)
      | .error _ => false)
+
+/-- the driver's number-literal parser: RFC 8259 `number` grammar check + exact decimal → binary64
+round-to-nearest-even (`Dec.toBits`, proved correct in GeomV/C17/DecProofs.lean); json.Unmarshal answers a literal whose
+value overflows binary64 with an UnmarshalTypeError, so such a literal has no value here -/
+def jsonPn (tok : List Char) : Option UInt64 :=
+  if Dec.jsonNumberOk tok then (Dec.toBits tok).filter Dec.isFiniteBits else none
+
+/-- all ordinates of a geometry, in document order -/
+def ptCoords {F : Type} (p : Pt F) : List F := [p.x, p.y]
+def coordsOf {F : Type} : Geom F → List F
+  | .point p => ptCoords p
+  | .multiPoint ps | .lineString ps => ps.flatMap ptCoords
+  | .multiLineString ls | .polygon ls => ls.flatMap (·.flatMap ptCoords)
+  | .multiPolygon ps => ps.flatMap (·.flatMap (·.flatMap ptCoords))
+  | _ => []
 
 end GeomV.C06
